@@ -31,6 +31,13 @@ var Deviants = []string{
 	"write-noop", "write-twice", "write-wrong-count", "writeat-wrong-offset",
 	"seek-wrong-offset", "seek-noop", "truncate-noop", "truncate-wrong-size",
 	"close-twice-ok", "filestat-wrong-size",
+	// deviations confined to one sub-case of an operation: each needs the scenario that reaches the sub-case
+	"truncate-shrink-noop", "truncate-grow-noop", "truncate-zero-noop",
+	"rename-dir-loses-children", "rename-overwrite-keeps-dest", "rename-dir-noop",
+	"remove-dir-noop", "remove-file-noop", "mkdir-nested-noop",
+	"write-at-offset-noop", "seek-end-wrong", "seek-current-wrong", "seek-start-wrong",
+	"open-append-ignored", "open-excl-ignored", "chmod-file-noop", "chmod-dir-noop",
+	"read-after-seek-wrong", "readdir-nested-missing-entry", "stat-dir-wrong-perm",
 }
 
 // Fired counts, per deviant, how often its deviation actually changed what a call did or returned.
@@ -95,6 +102,18 @@ func (f *FS) OpenFile(name string, flag int, perm hackpadfs.FileMode) (hackpadfs
 		fire(f.D)
 		perm ^= 0o111
 	}
+	if f.is("open-append-ignored") && flag&hackpadfs.FlagAppend != 0 {
+		if info, err := f.In.Stat(name); err == nil && info.Size() > 0 {
+			fire(f.D)
+			flag &^= hackpadfs.FlagAppend
+		}
+	}
+	if f.is("open-excl-ignored") && flag&hackpadfs.FlagExclusive != 0 && flag&hackpadfs.FlagCreate != 0 {
+		if info, err := f.In.Stat(name); err == nil && !info.IsDir() {
+			fire(f.D)
+			flag &^= hackpadfs.FlagExclusive
+		}
+	}
 	if f.is("open-trunc-ignored") && flag&hackpadfs.FlagTruncate != 0 && f.exists(name) {
 		if info, err := f.In.Stat(name); err == nil && info.Size() > 0 {
 			fire(f.D)
@@ -123,6 +142,14 @@ func (f *FS) Mkdir(name string, perm hackpadfs.FileMode) error {
 		if _, err := f.In.Stat(name); errors.Is(err, hackpadfs.ErrNotExist) && f.exists(path.Dir(name)) {
 			fire(f.D)
 			return nil
+		}
+	}
+	if f.is("mkdir-nested-noop") && path.Dir(name) != "." {
+		if _, err := f.In.Stat(name); errors.Is(err, hackpadfs.ErrNotExist) {
+			if info, perr := f.In.Stat(path.Dir(name)); perr == nil && info.IsDir() {
+				fire(f.D)
+				return nil
+			}
 		}
 	}
 	if f.is("mkdir-wrong-perm") && !f.exists(name) {
@@ -168,6 +195,12 @@ func (f *FS) Remove(name string) error {
 			return nil
 		}
 	}
+	if info, serr := f.In.Stat(name); serr == nil && ((f.is("remove-dir-noop") && info.IsDir()) || (f.is("remove-file-noop") && !info.IsDir())) {
+		if ents, err := hackpadfs.ReadDir(f.In, name); err != nil || len(ents) == 0 {
+			fire(f.D)
+			return nil
+		}
+	}
 	err := f.In.Remove(name)
 	if f.is("remove-nonempty-ok") && errors.Is(err, hackpadfs.ErrNotEmpty) {
 		fire(f.D)
@@ -201,6 +234,34 @@ func (f *FS) Rename(oldname, newname string) error {
 		if err == nil && info != nil && !info.IsDir() {
 			fire(f.D)
 			_ = hackpadfs.WriteFullFile(f.In, oldname, data, info.Mode().Perm())
+		}
+		return err
+	case (f.is("rename-dir-loses-children") || f.is("rename-dir-noop")) && f.exists(oldname) && oldname != newname:
+		info, _ := f.In.Stat(oldname)
+		err := f.In.Rename(oldname, newname)
+		if err == nil && info != nil && info.IsDir() {
+			if f.is("rename-dir-noop") {
+				fire(f.D)
+				_ = f.In.Rename(newname, oldname)
+			} else if ents, rerr := hackpadfs.ReadDir(f.In, newname); rerr == nil && len(ents) > 0 {
+				fire(f.D)
+				for _, e := range ents {
+					_ = hackpadfs.RemoveAll(f.In, path.Join(newname, e.Name()))
+				}
+			}
+		}
+		return err
+	case f.is("rename-overwrite-keeps-dest") && f.exists(oldname) && oldname != newname:
+		dinfo, derr := f.In.Stat(newname)
+		var data []byte
+		if derr == nil && !dinfo.IsDir() {
+			data, _ = hackpadfs.ReadFile(f.In, newname)
+		}
+		sinfo, _ := f.In.Stat(oldname)
+		err := f.In.Rename(oldname, newname)
+		if err == nil && derr == nil && !dinfo.IsDir() && sinfo != nil && !sinfo.IsDir() {
+			fire(f.D)
+			_ = hackpadfs.WriteFullFile(f.In, newname, data, dinfo.Mode().Perm())
 		}
 		return err
 	case f.is("rename-drops-file") && f.exists(oldname) && oldname != newname:
@@ -270,6 +331,12 @@ func (f *FS) devInfo(in hackpadfs.FileInfo) hackpadfs.FileInfo {
 		fire(f.D)
 		m := in.Mode() ^ 0o111
 		return info{FileInfo: in, mode: &m}
+	case "stat-dir-wrong-perm":
+		if in.IsDir() {
+			fire(f.D)
+			m := in.Mode() ^ 0o011
+			return info{FileInfo: in, mode: &m}
+		}
 	case "stat-wrong-name":
 		fire(f.D)
 		n := in.Name() + "x"
@@ -303,6 +370,10 @@ func (f *FS) Chmod(name string, mode hackpadfs.FileMode) error {
 			fire(f.D)
 			return nil
 		}
+	}
+	if in, err := f.In.Stat(name); err == nil && in.Mode().Perm() != mode.Perm() && ((f.is("chmod-file-noop") && !in.IsDir()) || (f.is("chmod-dir-noop") && in.IsDir())) {
+		fire(f.D)
+		return nil
 	}
 	if f.is("chmod-wrong-bits") && f.exists(name) {
 		fire(f.D)
@@ -341,6 +412,13 @@ func (f *File) Read(p []byte) (int, error) {
 		}
 		return n, err
 	}
+	if f.is("read-after-seek-wrong") && len(p) > 0 {
+		if cur, serr := hackpadfs.SeekFile(f.in, 0, io.SeekCurrent); serr == nil && cur > 0 {
+			if _, serr = hackpadfs.SeekFile(f.in, cur-1, io.SeekStart); serr == nil {
+				fire(f.fs.D) // reads start one byte early
+			}
+		}
+	}
 	n, err := f.in.Read(p)
 	if f.is("read-wrong-bytes") && n > 0 {
 		fire(f.fs.D)
@@ -373,6 +451,13 @@ func (f *File) Write(p []byte) (int, error) {
 		if _, err := hackpadfs.WriteFile(f.in, nil); err == nil {
 			fire(f.fs.D)
 			return len(p), nil
+		}
+	case f.is("write-at-offset-noop") && len(p) > 0:
+		if cur, serr := hackpadfs.SeekFile(f.in, 0, io.SeekCurrent); serr == nil && cur > 0 {
+			if _, err := hackpadfs.WriteFile(f.in, nil); err == nil {
+				fire(f.fs.D)
+				return len(p), nil
+			}
 		}
 	case f.is("write-twice") && len(p) > 0:
 		n, err := hackpadfs.WriteFile(f.in, p)
@@ -414,6 +499,13 @@ func (f *File) Seek(offset int64, whence int) (int64, error) {
 		return want, err
 	}
 	n, err := hackpadfs.SeekFile(f.in, offset, whence)
+	if err == nil && ((f.is("seek-end-wrong") && whence == io.SeekEnd) || (f.is("seek-current-wrong") && whence == io.SeekCurrent && offset != 0) || (f.is("seek-start-wrong") && whence == io.SeekStart && offset > 0)) {
+		// the file position really moves somewhere else, and the reported offset says so
+		if m, serr := hackpadfs.SeekFile(f.in, n+1, io.SeekStart); serr == nil {
+			fire(f.fs.D)
+			return m, nil
+		}
+	}
 	if f.is("seek-wrong-offset") && err == nil {
 		fire(f.fs.D)
 		n++
@@ -425,6 +517,15 @@ func (f *File) Truncate(size int64) error {
 	if f.is("truncate-noop") {
 		if in, err := f.in.Stat(); err == nil && size >= 0 && in.Size() != size {
 			if terr := hackpadfs.TruncateFile(f.in, in.Size()); terr == nil {
+				fire(f.fs.D)
+				return nil
+			}
+		}
+	}
+	if in, err := f.in.Stat(); err == nil && !in.IsDir() {
+		cur := in.Size()
+		if (f.is("truncate-shrink-noop") && size > 0 && size < cur) || (f.is("truncate-grow-noop") && size > cur) || (f.is("truncate-zero-noop") && size == 0 && cur > 0) {
+			if terr := hackpadfs.TruncateFile(f.in, cur); terr == nil { // would the real call be accepted at all?
 				fire(f.fs.D)
 				return nil
 			}
@@ -480,6 +581,9 @@ func (f *File) ReadDir(n int) ([]hackpadfs.DirEntry, error) {
 	ents, err := hackpadfs.ReadDirFile(f.in, n)
 	switch {
 	case f.is("readdir-missing-entry") && len(ents) > 0:
+		fire(f.fs.D)
+		ents = ents[:len(ents)-1]
+	case f.is("readdir-nested-missing-entry") && len(ents) > 0 && f.name != "." && f.name != "":
 		fire(f.fs.D)
 		ents = ents[:len(ents)-1]
 	case f.is("readdir-duplicate-entry") && len(ents) > 0:
